@@ -69,6 +69,7 @@ type knownFinding struct {
 	Commit   string `json:"commit,omitempty"`
 	Witness  string `json:"witness"`
 	Kind     string `json:"kind"`
+	Retries  int    `json:"retries,omitempty"` // schedule-dependent witnesses: replay up to this many times until the finding shows
 	What     string `json:"what"`
 }
 
@@ -336,10 +337,19 @@ func witnesses[C any](t *testing.T, r *Runner, kind string, check func(*Env, *C)
 		r.mu.Lock()
 		before := r.excluded[f.Class]
 		r.mu.Unlock()
-		cerr := exec1(r, c, check)
-		r.mu.Lock()
-		hit := r.excluded[f.Class] > before
-		r.mu.Unlock()
+		var cerr error
+		hit := false
+		for try := 0; try <= f.Retries && !hit && cerr == nil; try++ {
+			if try > 0 {
+				if c, err = loadCase[C](p); err != nil {
+					break
+				}
+			}
+			cerr = exec1(r, c, check)
+			r.mu.Lock()
+			hit = r.excluded[f.Class] > before
+			r.mu.Unlock()
+		}
 		switch {
 		case cerr != nil:
 			// a listed witness now fails with something unlisted (or a fixed one is back)
